@@ -87,12 +87,7 @@ mutual
         match process resolve s sub with
         | .error e => .error e
         | .ok sub' => processSubs resolve rest (Kvs.set k (.dict sub') t)
-      | some v =>
-        if truthy v then
-          match s with
-          | .mk [] [] => processSubs resolve rest t          -- nothing calls `.get` on it: passed through
-          | _ => .error .notAMap
-        else processSubs resolve rest t
+      | some _ => processSubs resolve rest t        -- anything but a map is left for load_tree to reject
       | none => processSubs resolve rest t
 end
 
